@@ -199,7 +199,7 @@ def items(tier, seed):
             for warm in WARM:
                 out.append({'op': o.name, 'n': n3, 'k': 3, 'warm': warm,
                             'bound': 3 if (warm == 'cold' or not heavy) else 2})
-            if stateful:
+            if stateful and o.kinds:     # (views without table inputs have a fixed length: n does not shrink them)
                 out.append({'op': o.name, 'n': 1, 'k': 3, 'warm': 'cold', 'bound': None})
                 if not heavy and 'expand' not in o.tags:
                     out.append({'op': o.name, 'n': 2, 'k': 3, 'warm': 'cold', 'bound': 5})
